@@ -102,6 +102,13 @@ CLAIMED = {
         'the utility null-tests its arguments; the recursive equivalence search carries, tests and extends a visited list before recursing. Whether a particular run collides is not observed.',
    note='Trusted: clang types. The original defect (64-bit Cantor pairing) was replayed with controlled addresses and repaired (fix commits d93d680, fb127cf).',
    ref='DESIGN.md section 4, C18'),
+ 'C19': dict(
+   technique='static analysis: predicate coverage, loop-direction rule for index-removing loops, branch-fact rules on the single interface definition, traversal completeness',
+   text='Model::clean consults every attribute of the documented emptiness definitions and removes by index only in descending loops; the required interface has one definition shared by fixVariableInterfaces and the validator, '
+        'reports failure for parentless/unrelated equivalences, and fixVariableInterfaces writes only where the current interface does not suffice, visits every variable and returns the accumulated verdict; linkUnits/hasUnlinkedUnits visit the whole tree and exempt exactly standard units. '
+        'Necessary conditions; the post-conditions are not executed against the validator.',
+   note='Trusted: clang AST/CFG; the documented definition of "empty" in model.h.',
+   ref='DESIGN.md section 4, C19'),
 }
 
 NOT_YET = {}
